@@ -160,6 +160,17 @@ func cmdHarness(args []string) int {
 			}
 			fmt.Printf("FORKSITE %6d %s\n", s.v, s.k)
 		}
+		sites = nil
+		for k, v := range sym.ForcedSites {
+			sites = append(sites, kv{k, v})
+		}
+		sort.Slice(sites, func(i, j int) bool { return sites[i].v > sites[j].v })
+		for i, s := range sites {
+			if i > 25 {
+				break
+			}
+			fmt.Printf("FORCEDSITE %6d %s\n", s.v, s.k)
+		}
 		for i, pm := range hr.PathModels {
 			if i >= 5 {
 				break
